@@ -4,6 +4,7 @@ import (
 	"fmt"
 	"go/ast"
 	"go/token"
+	"go/types"
 	"strings"
 
 	"arkverif/checker/core"
@@ -314,38 +315,55 @@ func c15r4(c *core.Ctx) {
 		return
 	}
 	for _, f := range []*core.Func{shrink, can} {
-		minPar := f.Sig.Params().At(0)
 		ok, why := false, "no expression of the form max(round(len), min) found"
-		core.InspectNoLits(f.Body, func(x ast.Node) bool {
-			call, isCall := x.(*ast.CallExpr)
-			if !isCall || !m.IsBuiltin(call, "max") || len(call.Args) != 2 {
-				return true
+		// the target may be computed in the role itself or in a helper that receives the minimum-capacity parameter
+		var search func(g *core.Func, minPar *types.Var, depth int)
+		search = func(g *core.Func, minPar *types.Var, depth int) {
+			if g == nil || g.Body == nil || depth > 2 || ok {
+				return
 			}
-			var rArg, mArg ast.Expr
-			for _, a := range call.Args {
-				if inner, isC := ast.Unparen(a).(*ast.CallExpr); isC {
-					if k, cal, _ := m.Callee(inner); k == core.CallStatic && cal == round && len(inner.Args) == 1 {
-						rArg = inner.Args[0]
-						continue
-					}
+			core.InspectNoLits(g.Body, func(x ast.Node) bool {
+				call, isCall := x.(*ast.CallExpr)
+				if !isCall {
+					return true
 				}
-				mArg = a
-			}
-			if rArg == nil {
-				why = "max(...) without the rounding function " + round.Name + " as an operand"
+				if !m.IsBuiltin(call, "max") || len(call.Args) != 2 {
+					if k, cal, _ := m.Callee(call); k == core.CallStatic && cal != g && cal.Sig != nil {
+						for i, a := range call.Args {
+							if id, isID := ast.Unparen(a).(*ast.Ident); isID && m.Info.ObjectOf(id) == minPar && i < cal.Sig.Params().Len() {
+								search(cal, cal.Sig.Params().At(i), depth+1)
+							}
+						}
+					}
+					return true
+				}
+				var rArg, mArg ast.Expr
+				for _, a := range call.Args {
+					if inner, isC := ast.Unparen(a).(*ast.CallExpr); isC {
+						if k, cal, _ := m.Callee(inner); k == core.CallStatic && cal == round && len(inner.Args) == 1 {
+							rArg = inner.Args[0]
+							continue
+						}
+					}
+					mArg = a
+				}
+				if rArg == nil {
+					why = "max(...) without the rounding function " + round.Name + " as an operand"
+					return true
+				}
+				if fieldKeyOf(m, rArg) != "table.len" {
+					why = fmt.Sprintf("the rounding function is applied to %s instead of the table length", m.ExprString(rArg))
+					return true
+				}
+				if id, isID := ast.Unparen(mArg).(*ast.Ident); !isID || m.Info.ObjectOf(id) != minPar {
+					why = "the other operand of max is not the minimum-capacity parameter"
+					return true
+				}
+				ok = true
 				return true
-			}
-			if fieldKeyOf(m, rArg) != "table.len" {
-				why = fmt.Sprintf("the rounding function is applied to %s instead of the table length", m.ExprString(rArg))
-				return true
-			}
-			if id, isID := ast.Unparen(mArg).(*ast.Ident); !isID || m.Info.ObjectOf(id) != minPar {
-				why = "the other operand of max is not the minimum-capacity parameter"
-				return true
-			}
-			ok = true
-			return true
-		})
+			})
+		}
+		search(f, f.Sig.Params().At(0), 0)
 		subject := f.Name + ": target"
 		if ok {
 			c.OK("C15/R4", subject, c.At(f.Pos()), "target = max("+round.Name+"(len), minimum): at most the larger of the initial capacity and the next power of two of the size")
